@@ -185,7 +185,7 @@ func randHistory(rng *core.Rng, pfx string, maxLen int, withOpen bool) []xMsg {
 			}
 		}
 	}
-	return h
+	return xLongNames(rng, h)
 }
 
 func xNontrivial(h []xMsg) bool {
